@@ -26,6 +26,10 @@ def cell_push_line(m, name, ty="cell::Cell"):
     if var == "Flag":
         b = m.eval(z3.Bool(name + ".Flag.0"), model_completion=True)
         return "push flag %s" % ("true" if z3.is_true(b) else "false")
+    if var == "WithTag":
+        # the wrapped value: Rc<WithTag> -> .value (field 1); wrappers never nest (representation invariant)
+        inner = cell_push_line(m, name + ".WithTag.0.*.1")
+        return inner.replace("push ", "push tagged ", 1) if not inner.startswith("push tagged") else "push tagged int 1"
     return {"Nil": "push nil", "Str": "push str s", "Vector": "push vec", "Map": "push map", "Fun": "push fun",
             "Bitstr": "push bitstr 5a 0 8", "AnyRc": "push any", "WithTag": "push tagged int 1"}[var]
 
